@@ -31,5 +31,26 @@ def emit(kind, **data):
         return
     rec = {}
     for k, v in data.items():
-        rec[k] = np.array(v, copy=True) if isinstance(v, np.ndarray) else v
+        if isinstance(v, np.ndarray):
+            rec[k] = np.array(v, copy=True)
+        elif k in ("solver", "datafit", "penalty"):
+            rec[k] = _describe(v)
+        else:
+            rec[k] = v
     TRACE.append((kind, rec))
+
+
+def _describe(obj):
+    """Class name and scalar / array hyper-parameters of a solver, datafit or penalty."""
+    if obj is None:
+        return None
+    out = {"class": type(obj).__name__}
+    names = ("alpha", "l1_ratio", "gamma", "positive", "weights", "delta", "fit_intercept",
+             "warm_start", "tol", "max_iter", "max_epochs", "p0", "ws_strategy")
+    for name in names:
+        try:
+            val = getattr(obj, name)
+        except Exception:
+            continue
+        out[name] = np.array(val, copy=True) if isinstance(val, np.ndarray) else val
+    return out
